@@ -3,17 +3,22 @@
 (* between the calls, and all histories of <= MaxOps calls through ONE       *)
 (* shared TreeCache. Every emitted history is a replay case.                 *)
 (*  Mode "dag":   atoms {nil, 1}; calls on pair nodes.                       *)
+(*  Mode "dag1":  one atom only (the cache never looks at atoms), which      *)
+(*                makes one more pair node affordable.                       *)
 (*  Mode "atoms": every pair of atoms of the menu (small-integer fast path,  *)
 (*                both allocator representations), <= 1 pair.                *)
-(*  Full = TRUE : the history is part of the state (every history is a       *)
-(*                state, complete histories are emitted).                    *)
-(*  Full = FALSE: cfg uses VIEW ViewNoHist: states are (table, cache, number *)
-(*                of calls, last event); every reachable cache state and     *)
-(*                every call from it is checked once and emitted with one    *)
-(*                representative history.                                    *)
+(*  Full = TRUE : the history is part of the state: every history of <=      *)
+(*                MaxOps calls (interleaved with allocations) is a state;    *)
+(*                complete histories are emitted by the invariant Emit.      *)
+(*  Full = FALSE: cfg uses VIEW ViewNoHist and MaxOps = 99: the state is     *)
+(*                (table, cache), so TLC explores EVERY reachable cache      *)
+(*                state of every DAG under histories of ANY length; results  *)
+(*                are checked and cases emitted per transition (action       *)
+(*                properties ResultStep / EmitStep), each with the           *)
+(*                representative history of its source state.                *)
 EXTENDS TreeHashCache, Json
 
-CONSTANTS Mode, NPairs, MaxOps, Full
+CONSTANTS Mode, NPairs, MaxOps, Full, EmitOneIn, Kinds   \* Kinds: the enabled calls
 
 VARIABLES nops, st, internal
 allvars == <<tbl, cache, hist, nops, st, internal>>
@@ -23,11 +28,13 @@ AtomBytes == {<<>>, <<1>>, <<23>>, <<24>>, <<127>>, <<0, 128>>, <<3, 255, 255, 2
               <<0>>, <<0, 1>>, <<0, 23>>, <<0, 0>>, <<128>>, <<4, 0, 0, 0>>, A32}           \* Buffer only
 AtomMenu == {AtomNode(b, "buf") : b \in AtomBytes} \cup {AtomNode(b, "small") : b \in {x \in AtomBytes : FitsSmall(x)}}
 
+IsDag == Mode \in {"dag", "dag1"}
 BaseTables == IF Mode = "dag" THEN {<<AtomNode(<<>>, "small"), AtomNode(<<1>>, "small")>>}
+              ELSE IF Mode = "dag1" THEN {<<AtomNode(<<1>>, "small")>>}
               ELSE {<<x>> : x \in AtomMenu} \cup {<<x, y>> : x \in AtomMenu, y \in AtomMenu}
 
 PairCount == Cardinality({k \in DOMAIN tbl : IsPairNode(tbl[k])})
-Targets == IF Mode = "dag" THEN {k \in DOMAIN tbl : IsPairNode(tbl[k])} ELSE DOMAIN tbl
+Targets == IF IsDag THEN {k \in DOMAIN tbl : IsPairNode(tbl[k])} ELSE DOMAIN tbl
 
 Init == /\ tbl \in BaseTables
         /\ cache = EmptyCache
@@ -35,21 +42,26 @@ Init == /\ tbl \in BaseTables
         /\ nops = 0 /\ st = "open" /\ internal = FALSE
 
 Alloc == /\ PairCount < NPairs /\ nops < MaxOps
-         /\ \E i, j \in DOMAIN tbl : AllocMore(PairNode(i, j))
+         /\ \E i, j \in DOMAIN tbl : (IsDag \/ (i = 1 /\ j = Len(tbl))) /\ AllocMore(PairNode(i, j))
          /\ UNCHANGED <<nops, st, internal>>
 \* calls that change the shared cache
 Stateful == /\ nops < MaxOps /\ nops' = nops + 1
             /\ \E n \in Targets :
-                 \/ VisitTreeA(n) /\ UNCHANGED <<st, internal>>
-                 \/ HashCachedA(n) /\ UNCHANGED <<st, internal>>
-                 \/ HashNoVisitA(n) /\ internal' = TRUE /\ UNCHANGED st
-\* calls that do not touch it end the history (they cannot influence later calls)
-Stateless == /\ nops < MaxOps /\ nops' = nops + 1 /\ st' = "done"
-             /\ \E n \in Targets : HashPlainA(n) \/ HashFromBytesA(n, FALSE) \/ HashFromBytesA(n, TRUE) \/ HashEncoderA(n)
+                 \/ "visit" \in Kinds /\ VisitTreeA(n) /\ UNCHANGED <<st, internal>>
+                 \/ "cached" \in Kinds /\ HashCachedA(n) /\ UNCHANGED <<st, internal>>
+                 \/ "novisit" \in Kinds /\ HashNoVisitA(n) /\ internal' = TRUE /\ UNCHANGED st
+\* calls that neither read nor write the shared cache: checked once per table, on a fresh history
+\* (the harness additionally runs them at the end of every replayed history)
+Stateless == /\ cache = EmptyCache /\ nops < MaxOps /\ nops' = nops + 1 /\ st' = "done"
+             /\ \E n \in Targets :
+                  \/ "plain" \in Kinds /\ HashPlainA(n)
+                  \/ "bytes" \in Kinds /\ HashFromBytesA(n, FALSE)
+                  \/ "bytes_br" \in Kinds /\ HashFromBytesA(n, TRUE)
+                  \/ "enc" \in Kinds /\ HashEncoderA(n)
              /\ UNCHANGED internal
 Next == st = "open" /\ (Alloc \/ Stateful \/ Stateless)
 
-ViewNoHist == <<tbl, cache, nops, st, internal, IF hist = <<>> THEN <<>> ELSE Top(hist)>>
+ViewNoHist == <<tbl, cache, st, internal>>
 
 ASSUME SmallAtoms
 
@@ -58,7 +70,12 @@ RefAgreesOnAlloc == (hist = <<>> \/ ~IsCall(Top(hist))) => RefAgrees
 \* the non-canonical / Buffer atoms never take the fast path, canonical ones may: both equal the reference
 AtomFastPathSound == \A k \in DOMAIN tbl : IsAtomNode(tbl[k]) => AtomHashFast(tbl[k]) = AtomHash(tbl[k].a)
 
+\* Full = FALSE: results are checked and cases emitted per TRANSITION (TLC evaluates action properties
+\* also for successors whose view was seen before), with the representative history of the source state
+ResultStep == [][LastResultCorrect']_allvars
 Strip(e) == IF IsCall(e) THEN [k |-> e.k, n |-> e.n] ELSE [k |-> "alloc", l |-> e.nd.l, r |-> e.nd.r]
-Emit == (hist # <<>> /\ IsCall(Top(hist)) /\ ~internal /\ (~Full \/ nops = MaxOps \/ st = "done")) =>
-          PrintT(<<"CASE", ToJson([k |-> "hist", base |-> SelectSeq(tbl, IsAtomNode), ev |-> [i \in DOMAIN hist |-> Strip(hist[i])]])>>)
+CaseOf(t, h) == [k |-> "hist", base |-> SelectSeq(t, IsAtomNode), ev |-> [i \in DOMAIN h |-> Strip(h[i])]]
+Emit == (Full /\ hist # <<>> /\ IsCall(Top(hist)) /\ ~internal /\ (nops = MaxOps \/ st = "done")) => PrintT(<<"CASE", ToJson(CaseOf(tbl, hist))>>)
+\* EmitOneIn > 1: only a random 1/EmitOneIn of the transitions become replay cases (all are model checked)
+EmitStep == [][(~Full /\ hist' # hist /\ IsCall(Top(hist')) /\ ~internal' /\ (EmitOneIn = 1 \/ RandomElement(1..EmitOneIn) = 1)) => PrintT(<<"CASE", ToJson(CaseOf(tbl', hist'))>>)]_allvars
 =============================================================================
